@@ -19,14 +19,18 @@ def foldSizeDyn : List Dict → Nat → Nat → Slice → Res Nat
 /-! ### combinators -/
 def primD (s a : Nat) : Dict :=
   { align := a, minSize := s, sized := some s, viewLen := fun _ => .ok s,
-    validateU := fun _ => .ok (), size := fun _ => .ok s }
+    validateU := fun _ => .ok (), size := fun _ => .ok s,
+    walk := fun x => (x.takeU s).bind fun y => .ok (.raw y.bytes) }
 
 def boolD : Dict :=
   { align := 1, minSize := 1, sized := some 1, viewLen := fun _ => .ok 1,
     validateU := fun s => match s.bytes with
       | [] => .fault .oob
       | b :: _ => if b.toNat ≤ 1 then .ok () else .err ⟨.invalidData, 0⟩,
-    size := fun _ => .ok 1 }
+    size := fun _ => .ok 1,
+    walk := fun s => match s.bytes with
+      | [] => .fault .oob
+      | b :: _ => .ok (.bool (b.toNat != 0)) }
 
 def arrLoop (d : Dict) (s : Slice) : Nat → Nat → Res Unit
   | 0, _ => .ok ()
@@ -36,22 +40,32 @@ def arrLoop (d : Dict) (s : Slice) : Nat → Nat → Res Unit
       (d.validateU e).offset (i * d.ssize)
       arrLoop d s k (i+1)
 
+/-- deep read of the elements, walked like `arrLoop` -/
+def walkArr (d : Dict) (s : Slice) : Nat → Nat → Res (List Val)
+  | 0, _ => .ok []
+  | k+1, i =>
+    (s.dropU (i * d.ssize)).bind fun a => (a.takeU d.ssize).bind fun e => (d.walk e).bind fun v =>
+      (walkArr d s k (i+1)).bind fun vs => .ok (v :: vs)
+
 def arrD (d : Dict) (n : Nat) : Dict :=
   { align := d.align, minSize := n * d.ssize, sized := some (n * d.ssize), viewLen := fun _ => .ok (n * d.ssize),
-    validateU := fun s => arrLoop d s n 0, size := fun _ => .ok (n * d.ssize) }
+    validateU := fun s => arrLoop d s n 0, size := fun _ => .ok (n * d.ssize),
+    walk := fun s => (walkArr d s n 0).bind fun xs => .ok (.arr xs) }
 
 def sstructD (ds : List Dict) : Dict :=
   let al := alignL ds
   let sz := ceilMul (foldSize ds 0) al
   { align := al, minSize := sz, sized := some sz, viewLen := fun _ => .ok sz,
-    validateU := fun s => validateAll ds 0 s, size := fun _ => .ok sz }
+    validateU := fun s => validateAll ds 0 s, size := fun _ => .ok sz,
+    walk := fun s => (walkAll ds 0 s).bind fun xs => .ok (.tuple xs) }
 
 def cenumD (tag : LenTy) (n : Nat) : Dict :=
   { align := tag.align, minSize := tag.size, sized := some tag.size, viewLen := fun _ => .ok tag.size,
     validateU := fun s => do
       let t ← tag.readU s
       if t < n then pure () else .err ⟨.invalidEnumTag, 0⟩,
-    size := fun _ => .ok tag.size }
+    size := fun _ => .ok tag.size,
+    walk := fun s => (tag.readU s).bind fun t => .ok (.tag t []) }
 
 def alignLL : List (List Dict) → Nat
   | [] => 1
@@ -72,7 +86,9 @@ def senumD (tag : LenTy) (vs : List (List Dict)) : Dict :=
         let data ← s.dropU dOff
         (validateAll (vs.getD t []) 0 data).offset dOff
       else .err ⟨.invalidEnumTag, 0⟩,
-    size := fun _ => .ok sz }
+    size := fun _ => .ok sz,
+    walk := fun s => (tag.readU s).bind fun t => (s.dropU dOff).bind fun data =>
+      (walkAll (vs.getD t []) 0 data).bind fun xs => .ok (.tag t xs) }
 
 def usizeMax : Nat := 2^64 - 1
 
@@ -92,6 +108,13 @@ def vecElems (d : Dict) (dOff : Nat) (s : Slice) : Nat → Nat → Res Unit
       (d.validateU e).offset (dOff + i * d.ssize)
       vecElems d dOff s k (i+1)
 
+/-- deep read of the elements, walked like `vecElems` -/
+def walkElems (d : Dict) (dOff : Nat) (s : Slice) : Nat → Nat → Res (List Val)
+  | 0, _ => .ok []
+  | k+1, i =>
+    (s.dropU (dOff + i * d.ssize)).bind fun a => (a.takeU d.ssize).bind fun e => (d.walk e).bind fun v =>
+      (walkElems d dOff s k (i+1)).bind fun vs => .ok (v :: vs)
+
 def vecD (d : Dict) (l : LenTy) : Dict :=
   let al := max l.align d.align
   let dOff := max l.size d.align
@@ -108,7 +131,10 @@ def vecD (d : Dict) (l : LenTy) : Dict :=
       else vecElems d dOff s len 0,
     size := fun s => do
       let len ← l.readU s
-      pure (ceilMul (dOff + d.ssize * len) al) }
+      pure (ceilMul (dOff + d.ssize * len) al),
+    walk := fun s => (l.readU s).bind fun len => (vecSlots d l s.len).bind fun slots =>
+      if d.ssize = 0 then .ok (.vecZ (min slots l.max) len)
+      else (walkElems d dOff s len 0).bind fun xs => .ok (.vec (min slots l.max) xs) }
 
 /-- number of leading bytes forming valid UTF-8 (`Utf8Error::valid_up_to`), `none` if all valid -/
 def utf8Step : Bytes → Option Nat   -- length of the first scalar, none if malformed
@@ -150,7 +176,10 @@ def strD (l : LenTy) : Dict :=
         | some p => .err ⟨.invalidData, dOff + p⟩,
     size := fun s => do
       let len ← l.readU s
-      pure (ceilMul (dOff + len) al) }
+      pure (ceilMul (dOff + len) al),
+    walk := fun s => (l.readU s).bind fun len =>
+      if s.len < dOff then .fault .panic
+      else .ok (.str (min (floorMul (s.len - dOff) al) l.max) ((s.bytes.drop dOff).take len)) }
 
 /-- FlexVec chain walk for validation (repaired code): returns unit; `pos` = offset of the current slot -/
 def flexValidate (d : Dict) (l : LenTy) (os : Nat) : Nat → Nat → Slice → Res Unit
@@ -202,13 +231,35 @@ def flexSize (d : Dict) (l : LenTy) (os al : Nat) : Nat → Nat → Slice → Re
         let (_, rest) ← data.splitAt next
         flexSize d l os al fuel (pos + next) rest
 
+/-- deep read of the items, walked like `flexValidate` -/
+def walkFlex (d : Dict) (l : LenTy) (os : Nat) : Nat → Slice → Res (List Val)
+  | 0, _ => .fault .fuel
+  | fuel+1, data =>
+    (l.readU data).bind fun next =>
+      if next = 0 then .ok []
+      else if next = l.max then
+        match data.splitAt os with
+        | .ok (_, payload) => (d.walk payload).bind fun v => .ok [v]
+        | .err e => .err e
+        | .fault f => .fault f
+      else
+        match data.splitAt next with
+        | .ok (item, rest) =>
+          match item.splitAt os with
+          | .ok (_, payload) => (d.walk payload).bind fun v => (walkFlex d l os fuel rest).bind fun vs => .ok (v :: vs)
+          | .err e => .err e
+          | .fault f => .fault f
+        | .err e => .err e
+        | .fault f => .fault f
+
 def flexD (d : Dict) (l : LenTy) : Dict :=
   let al := max l.align d.align
   let os := max l.size d.align
   { align := al, minSize := os, sized := none,
     viewLen := fun n => .ok (floorMul n al),
     validateU := fun s => flexValidate d l os (s.len + 1) 0 (s.take (floorMul s.len al)),
-    size := fun s => flexSize d l os al (s.len + 1) 0 (s.take (floorMul s.len al)) }
+    size := fun s => flexSize d l os al (s.len + 1) 0 (s.take (floorMul s.len al)),
+    walk := fun s => (walkFlex d l os (s.len + 1) (s.take (floorMul s.len al))).bind fun xs => .ok (.flex xs) }
 
 def ustructD (ds : List Dict) (last : Dict) : Dict :=
   let fs := ds ++ [last]
@@ -224,7 +275,8 @@ def ustructD (ds : List Dict) (last : Dict) : Dict :=
     size := fun s => do
       let lastBytes ← (s.take (floorMul s.len al)).dropU lfo
       let z ← last.size lastBytes
-      pure (ceilMul (lfo + z) al) }
+      pure (ceilMul (lfo + z) al),
+    walk := fun s => (walkAll fs 0 (s.take (floorMul s.len al))).bind fun xs => .ok (.tuple xs) }
 
 def minList : List Nat → Nat
   | [] => 0
@@ -253,7 +305,9 @@ def uenumD (tag : LenTy) (vs : List (List Dict)) : Dict :=
       let data := data.take (floorMul data.len al)
       let v := vs.getD t []
       let z ← (if v.isEmpty then pure 0 else foldSizeDyn v 0 0 data)
-      pure (ceilMul (dOff + z) al) }
+      pure (ceilMul (dOff + z) al),
+    walk := fun s => (tag.readU s).bind fun t => (s.dropU dOff).bind fun data =>
+      (walkAll (vs.getD t []) 0 (data.take (floorMul data.len al))).bind fun xs => .ok (.tag t xs) }
 
 /-! ### descriptors -/
 inductive Ty where
